@@ -23,7 +23,7 @@ OUTSIDE = ["real threads: tasks interleave only at their await points (one task 
 def script_lines(bench, driver, bits, threads):
     L = []
     for m in bench["models"]:
-        L.append(f"model {m['name']} {m.get('cap', 1)}")
+        L.append(f"model {m['name'] or '_'} {m.get('cap', 1)} {m['parent'] if m.get('parent') is not None else -1}")
     for kind, table in (("output", bench.get("outputs", {})), ("requestor", bench.get("requestors", {}))):
         for key, conns in table.items():
             cs = " ".join(f"{c['to']}:{c.get('port', 0)}:{c.get('kind', 'plain')}:{1 if c.get('late') else 0}" for c in conns)
